@@ -709,6 +709,51 @@ func (w *World) opDiff(op *Op) {
 		w.failFor("C06", "diffiter-wrong/"+sides, "DiffIter(%s) stop=%d: %s", sides, stop, firstDiff(got, wantCB))
 		return
 	}
+	// two persisted versions held in two different stores (each store holds only its own version)
+	if oldKind == "root" && newKind == "root" && stop == 0 && cbErrAt == 0 {
+		va, vb := w.version(op.A), w.version(op.B)
+		if va != nil && vb != nil {
+			mk := func(v *Version, prefix string) (*mast.Mast, bool) {
+				names, _, missing, r := w.reachByObservation(v.root, v.disk)
+				if r.bad() || len(missing) > 0 {
+					return nil, false
+				}
+				iso := NewSimDisk(prefix)
+				for _, n := range names {
+					b, _ := w.disks[v.disk].Bytes(n)
+					iso.Put(n, b)
+				}
+				m, r := w.loadRoot(v.root, v.disk, nil, iso)
+				return m, !r.bad()
+			}
+			om, ok1 := mk(va, "sim://peer-old")
+			nm, ok2 := mk(vb, "sim://peer-new")
+			if ok1 && ok2 {
+				var gotX []string
+				rx := guard(func() error {
+					return nm.DiffIter(ctx, om, func(added, removed bool, key, addedValue, removedValue interface{}) (bool, error) {
+						kind := "change"
+						if added {
+							kind = "add"
+						} else if removed {
+							kind = "remove"
+						}
+						gotX = append(gotX, w.diffRec(kind, key, removedValue, addedValue))
+						return true, nil
+					})
+				})
+				w.st.Probes["diff-across-two-stores"]++
+				if rx.bad() {
+					w.failFor("C06", "diffiter-fails/"+sides+"/two-stores", "DiffIter between versions held in two different stores: %s", rx)
+					return
+				}
+				if !sameStrs(gotX, want) {
+					w.failFor("C06", "diffiter-wrong/"+sides+"/two-stores", "DiffIter between versions held in two different stores: %s", firstDiff(gotX, want))
+					return
+				}
+			}
+		}
+	}
 	// cursor interface must agree
 	var gotC []string
 	rc := guard(func() error {
@@ -967,8 +1012,15 @@ func (w *World) opDiffLinks(op *Op) {
 				b, _ := disk.Bytes(n)
 				repOld.Put(n, b)
 			}
+			// ... and the new version from a store that holds nothing but the new version: neither
+			// side's nodes can be fetched through the other side's store
+			repNew := NewSimDisk("sim://source-new-only")
+			for _, n := range reachB {
+				b, _ := disk.Bytes(n)
+				repNew.Put(n, b)
+			}
 			oldR, r1 := w.loadRoot(va.root, d, nil, repOld)
-			newS, r2 := w.loadRoot(vb.root, d, nil, disk)
+			newS, r2 := w.loadRoot(vb.root, d, nil, repNew)
 			if !r1.bad() && !r2.bad() {
 				var a4, r4 []string
 				ns4 := 0
